@@ -36,10 +36,18 @@ func newOSRootSource(root *os.Root) FileSource {
 	return &osRootSource{root: root}
 }
 
-func (s *osRootSource) FS() fs.FS                            { return s.root.FS() }
+func (s *osRootSource) FS() fs.FS                            { return rootFS{s.root} }
 func (s *osRootSource) Open(name string) (File, error)       { return s.root.Open(name) }
 func (s *osRootSource) Readlink(name string) (string, error) { return s.root.Readlink(name) }
 func (s *osRootSource) Close() error                         { return s.root.Close() }
+
+// rootFS is like os.Root.FS, but does not insist on valid UTF-8 names
+// (io/fs.ValidPath): file names are just bytes to rsync. Like with os.Root.FS,
+// names cannot escape the root.
+type rootFS struct{ root *os.Root }
+
+func (r rootFS) Open(name string) (fs.File, error)     { return r.root.Open(name) }
+func (r rootFS) Stat(name string) (fs.FileInfo, error) { return r.root.Stat(name) }
 
 // fsSource wraps an fs.FS to implement FileSource.
 type fsSource struct {
